@@ -46,5 +46,5 @@ CHECKS = {
          'The reply is produced by the real decoder, given the expiry, marshalled; len = CacheSize, marshalling into a provided buffer appends the same bytes, CacheUnmarshalView reconstructs Expected(tree), expiry (raw and CachePXAT) and the cache-hit mark, '
          'and every strict prefix of the buffer yields ErrCacheUnmarshal without panic.',
     design_ref='DESIGN.md 5 C17; design/resp.md',
-    note='Attributes and push frames are not cacheable and not generated; corrupted (not merely truncated) buffers are outside the property.'),
+    note='Wide aggregates (arrays, sets, maps of 13107 / 13108 / 20000 equal elements; thorough also 4096 and 65537) are generated and expected run-length encoded (mode cachewide) and their truncations are sampled (first and last KiB, every 9973rd position, 300 seeded positions). Attributes and push frames are not cacheable and not generated; corrupted (not merely truncated) buffers are outside the property.'),
 }
